@@ -97,6 +97,9 @@ pub enum Wrap {
     ProcSubstOut,
     /// `PIPELINE > bgout.txt & wait; simcat 64 < bgout.txt`
     Background,
+    /// a background job whose builtin reads from a process substitution:
+    /// `{ simcat 64 < <(PIPELINE); } > bgout.txt & wait; simcat 64 < bgout.txt`
+    BgProcSubstIn { read_loop: bool },
     /// `PIPELINE || probe alt` / `PIPELINE && probe alt`: `$?` seen by a later operand
     AndOr { and: bool },
 }
@@ -306,6 +309,10 @@ pub fn render(case: &Case) -> String {
         }
         Wrap::AndOr { and } => {
             s.push_str(&format!("{pipeline} {} probe alt\nprobe ao\n", if *and { "&&" } else { "||" }));
+        }
+        Wrap::BgProcSubstIn { read_loop } => {
+            let consumer = if *read_loop { "while IFS= read -r bl; do echo \"$bl\"; done" } else { "simcat 64" };
+            s.push_str(&format!("{{ {consumer} < <({pipeline}); }} > bgout.txt &\nwait\nsimcat 64 < bgout.txt\nprobe ps\n"));
         }
         Wrap::Background => {
             s.push_str(&format!("{pipeline} > bgout.txt &\nwait\nsimcat 64 < bgout.txt\nprobe ps\n"));
@@ -695,6 +702,7 @@ impl C11 {
                 3 => Wrap::ProcSubstIn,
                 4 => Wrap::ProcSubstOut,
                 5 => Wrap::Background,
+                7 => Wrap::BgProcSubstIn { read_loop: rng.below(2) == 0 },
                 6 => Wrap::AndOr { and: rng.below(2) == 0 },
                 _ => Wrap::None,
             },
@@ -723,7 +731,7 @@ impl C11 {
             cfg.short_read_pm = 0;
         }
         // (side finding, not C11: brush cannot parse a `case` inside <( ) / >( ))
-        if matches!(wrap, Wrap::ProcSubstIn | Wrap::ProcSubstOut) {
+        if matches!(wrap, Wrap::ProcSubstIn | Wrap::ProcSubstOut | Wrap::BgProcSubstIn { .. }) {
             for st in &mut stages {
                 if st.wrapper == Wrapper::CaseArm {
                     st.wrapper = Wrapper::Brace;
@@ -750,7 +758,7 @@ pub fn judge(case: &Case) -> Verdict {
     let script = render(case);
     let m = model(case);
     let mut spec = RunSpec::new(script.clone(), case.front_end.clone(), case.cfg.clone());
-    spec.needs_dir = case.wrap == Wrap::Background;
+    spec.needs_dir = matches!(case.wrap, Wrap::Background | Wrap::BgProcSubstIn { .. });
     spec.via_entry = case.via_entry;
     let r = runner::run(&spec);
     let mut v = Verdict::default();
